@@ -44,16 +44,98 @@ func ruleC18_1(c *Ctx) {
 		"p0.Inspect[*].SupplyChainItem.ExpectedProducts":  "in_toto.substituteParametersInSliceOfSlices",
 		"p0.Inspect[*].Run":                               "in_toto.substituteParamatersInSlice",
 	}
-	seen := map[string]bool{}
+	seen := map[string]int{}
 	containerRe := regexp.MustCompile(`^p0\.(Steps|Inspect)$`)
+	// Two styles are recognised. (A) the list is replaced by a copy of itself and the fields of its elements are
+	// assigned in place. (B) a fresh list of the same length is filled, at the range index, with a local copy of the
+	// element whose fields were assigned. In (B) the local copy is an "element alias" of layout.Steps[i] / layout.Inspect[i].
+	type elemAlias struct {
+		list string
+		idx  ssa.Value
+		init *ssa.Store
+	}
+	aliases := map[*ssa.Alloc]elemAlias{}
+	for _, b := range f.Blocks {
+		for _, in := range b.Instrs {
+			al, ok := in.(*ssa.Alloc)
+			if !ok || al.Comment == "complit" {
+				continue
+			}
+			whole := storesTo(al)
+			if len(whole) != 1 {
+				continue
+			}
+			ld, ok := whole[0].Val.(*ssa.UnOp)
+			if !ok || ld.Op != token.MUL {
+				continue
+			}
+			ia, ok := ld.X.(*ssa.IndexAddr)
+			if !ok || !containerRe.MatchString(org(ia.X)) {
+				continue
+			}
+			aliases[al] = elemAlias{list: org(ia.X), idx: ia.Index, init: whole[0]}
+		}
+	}
+	aliasOf := func(addr ssa.Value) (*ssa.Alloc, bool) {
+		al, ok := addrRoot(addr).(*ssa.Alloc)
+		if !ok {
+			return nil, false
+		}
+		_, is := aliases[al]
+		return al, is
+	}
+	// org of an address / value below an element alias, expressed as a path of the layout parameter
+	aliasOrg := func(v ssa.Value, al *ssa.Alloc) string {
+		o := org(v)
+		pre := org(al)
+		if strings.HasPrefix(o, pre) {
+			return aliases[al].list + "[*]" + strings.TrimPrefix(o, pre)
+		}
+		return o
+	}
+	freshStores := map[ssa.Value][]*ssa.Store{} // fresh list -> element stores
 	for _, b := range f.Blocks {
 		for _, in := range b.Instrs {
 			st, ok := in.(*ssa.Store)
 			if !ok {
 				continue
 			}
+			if al, is := aliasOf(st.Addr); is && st.Addr != ssa.Value(al) {
+				// style B: field of the local element copy
+				o := aliasOrg(st.Addr, al)
+				helper, expected := want[o]
+				if !expected {
+					c.bad(R, fn, "assignment to "+o, st.Pos(), "a field outside the six substituted ones is assigned: layout."+strings.TrimPrefix(o, "p0."))
+					continue
+				}
+				seen[o]++
+				pc, idx := producer(st.Val, st)
+				okVal := pc != nil && idx == 0 && calleeName(pc) == helper
+				if okVal {
+					arg := pc.Common().Args[1]
+					okVal = false
+					if ld, isLd := arg.(*ssa.UnOp); isLd && ld.Op == token.MUL {
+						if al2, is2 := aliasOf(ld.X); is2 && al2 == al && aliasOrg(ld.X, al) == o && instrDominates(aliases[al].init, ld) {
+							okVal = true
+						}
+					}
+					if !okVal && org(arg) == o && findIndex(arg) == aliases[al].idx {
+						okVal = true
+					}
+				}
+				c.check(okVal, R, fn, "assignment to "+o, st.Pos(), helper+"(replacer, same field of the same element)", "assigned value is "+short(org(st.Val))+", not the substitution of this very field")
+				c.check(isRangeIndex(aliases[al].idx), R, fn, "loop over the whole list for "+o, st.Pos(), "element index is the range-index induction variable", "the element index is not the induction variable of a range over the whole list")
+				continue
+			}
 			if _, isField := st.Addr.(*ssa.FieldAddr); !isField {
-				if ia, isIdx := st.Addr.(*ssa.IndexAddr); !isIdx || !strings.HasPrefix(org(ia), "p0.") {
+				ia, isIdx := st.Addr.(*ssa.IndexAddr)
+				if isIdx {
+					if _, isMk := ia.X.(*ssa.MakeSlice); isMk {
+						freshStores[ia.X] = append(freshStores[ia.X], st)
+						continue
+					}
+				}
+				if !isIdx || !strings.HasPrefix(org(ia), "p0.") {
 					continue
 				}
 			}
@@ -64,6 +146,40 @@ func ruleC18_1(c *Ctx) {
 			if containerRe.MatchString(o) {
 				// copying the list before rewriting is allowed if the copy derives from the same list
 				okCopy := derives(st.Val, func(v ssa.Value) bool { return org(v) == o }, true)
+				if mk, isMk := st.Val.(*ssa.MakeSlice); isMk && !okCopy {
+					// style B: fresh list of the same length, every element written once at the range index from the
+					// element alias of the same index, after all field assignments of the alias
+					okLen := false
+					if l, isLen := mk.Len.(*ssa.Call); isLen && calleeName(l) == "builtin:len" && org(l.Call.Args[0]) == o {
+						okLen = true
+					}
+					es := freshStores[mk]
+					okElems := len(es) == 1
+					if okElems {
+						e := es[0]
+						ia := e.Addr.(*ssa.IndexAddr)
+						ld, isLd := e.Val.(*ssa.UnOp)
+						okElems = false
+						if isLd && ld.Op == token.MUL {
+							if al, isAl := ld.X.(*ssa.Alloc); isAl {
+								if a, isAlias := aliases[al]; isAlias && a.list == o && a.idx == ia.Index && isRangeIndex(ia.Index) && rangeBoundIs(ia.Index, o) {
+									okElems = true
+									// every field assignment of the alias precedes the write-back
+									for _, r := range *al.Referrers() {
+										if fa, isFa := r.(*ssa.FieldAddr); isFa {
+											if !allStoresBelowDominate(fa, e) {
+												okElems = false
+											}
+										}
+									}
+								}
+							}
+						}
+						okElems = okElems && reaches(e.Block(), st.Block())
+					}
+					c.check(okLen && okElems, R, fn, "list "+o+" replaced by a fresh list filled element by element from itself", st.Pos(), "make(len("+o+")); fresh[i] = rewritten copy of "+o+"[i] for every i", "layout."+strings.TrimPrefix(o, "p0.")+" is replaced by a new list that is not provably the element-wise rewritten copy of the old one (length, index or element source differ)")
+					continue
+				}
 				c.check(okCopy, R, fn, "list "+o+" replaced by a copy of itself", st.Pos(), short(org(st.Val)), "layout."+strings.TrimPrefix(o, "p0.")+" is replaced by "+short(org(st.Val)))
 				continue
 			}
@@ -72,7 +188,7 @@ func ruleC18_1(c *Ctx) {
 				c.bad(R, fn, "assignment to "+o, st.Pos(), "a field outside the six substituted ones is assigned: layout."+strings.TrimPrefix(o, "p0."))
 				continue
 			}
-			seen[o] = true
+			seen[o]++
 			pc, idx := producer(st.Val, st)
 			okVal := pc != nil && idx == 0 && calleeName(pc) == helper && org(pc.Common().Args[1]) == o && sameElement(st.Addr, pc.Common().Args[1])
 			detail := short(org(st.Val))
@@ -81,9 +197,14 @@ func ruleC18_1(c *Ctx) {
 			c.check(wholeSliceIndex(st.Addr), R, fn, "loop over the whole list for "+o, st.Pos(), "element index is the range-index induction variable", "the element index is not the induction variable of a range over the whole list")
 		}
 	}
+	// fresh lists that are filled but never become part of the result are ignored; fresh lists stored into the layout
+	// were handled above. A field substituted twice is not a single pass.
+	for o, n := range seen {
+		c.check(n == 1, R, fn, "field "+o+" is assigned once", f.Pos(), "1 assignment", fmt.Sprintf("%d assignments: the substitution is applied more than once to the same field", n))
+	}
 	var missing []string
 	for k := range want {
-		if !seen[k] {
+		if seen[k] == 0 {
 			missing = append(missing, strings.TrimPrefix(k, "p0."))
 		}
 	}
@@ -120,6 +241,51 @@ func findIndex(v ssa.Value) ssa.Value {
 		}
 	}
 	return nil
+}
+
+// isRangeIndex: idx is the induction variable of a `for i := range x` loop.
+func isRangeIndex(idx ssa.Value) bool {
+	if bo, ok := idx.(*ssa.BinOp); ok && bo.Op == token.ADD {
+		if ph, ok := bo.X.(*ssa.Phi); ok && ph.Comment == "rangeindex" {
+			return true
+		}
+	}
+	return false
+}
+
+// rangeBoundIs: the range loop of induction variable idx runs over a value whose org is list (bound = len(list)).
+func rangeBoundIs(idx ssa.Value, list string) bool {
+	for _, r := range *idx.Referrers() {
+		bo, ok := r.(*ssa.BinOp)
+		if !ok || bo.Op != token.LSS || bo.X != idx {
+			continue
+		}
+		if l, ok := bo.Y.(*ssa.Call); ok && calleeName(l) == "builtin:len" && org(l.Call.Args[0]) == list {
+			return true
+		}
+	}
+	return false
+}
+
+// allStoresBelowDominate: every store through an address derived from fa precedes (dominates) instruction at.
+func allStoresBelowDominate(fa ssa.Value, at ssa.Instruction) bool {
+	refs := fa.Referrers()
+	if refs == nil {
+		return true
+	}
+	for _, r := range *refs {
+		switch x := r.(type) {
+		case *ssa.Store:
+			if x.Addr == fa && !instrDominates(x, at) {
+				return false
+			}
+		case *ssa.FieldAddr:
+			if !allStoresBelowDominate(x, at) {
+				return false
+			}
+		}
+	}
+	return true
 }
 
 func wholeSliceIndex(addr ssa.Value) bool {
